@@ -16,12 +16,13 @@ import (
 	"github.com/f1bonacc1/process-compose/src/loader"
 	"github.com/f1bonacc1/process-compose/src/types"
 	"github.com/rs/zerolog"
+	"github.com/rs/zerolog/log"
 
 	"verif/harness/world"
 )
 
 func init() {
-	zerolog.SetGlobalLevel(zerolog.Disabled)
+	log.Logger = zerolog.Nop() // silence the supervisor's own log, not the process log files
 }
 
 // Snapshot is the reported state and the ground truth at one quiescent point.
